@@ -87,6 +87,7 @@ def mc_configs(sims, thorough=False):
     for sim in sims:
         for b in base:
             c = c01.falsy_labels(dict(b), len(out))
+            c['positional'] = len(out) % 3 == 1
             c['sim'] = sim
             c['tmin'] = [0, -6.0, 2.5][len(out) % 3]      # the start time must not matter (in particular tmin < -1)
             g = c['gamma'] if c['gamma'] > 0 else 1.0
